@@ -41,6 +41,8 @@ def run(ctx, chk):
     r3(ctx, chk)
     r4(ctx, chk)
     r5(ctx, chk)
+    from .c13 import previous_locales_flag_rule
+    previous_locales_flag_rule(ctx, chk, "C03.R6")
 
 
 # ---------------------------------------------------------------------------
